@@ -40,6 +40,7 @@ type htask struct {
 	// Effect: the task's commands write EffVal into file EffFile (index+1 into Files; 0 = no effect)
 	EffFile int    `json:"eff_file,omitempty"`
 	EffVal  string `json:"eff_val,omitempty"`
+	EffFrom int    `json:"eff_from,omitempty"` // instead of EffVal: copy the content of this file (index+1)
 }
 
 type hfile struct {
@@ -55,6 +56,8 @@ type hprog struct {
 	// Go randomises the iteration order of spok's own maps (e.g. SpokFile.Tasks); it cannot be
 	// controlled from outside, so for programs where it could matter it is at least varied.
 	Reps int `json:"reps,omitempty"`
+	// ReqMax > 0 limits the length of request lists (chains: requesting the last task runs everything)
+	ReqMax int `json:"req_max,omitempty"`
 }
 
 const absent = "-"
@@ -75,6 +78,10 @@ func (p hprog) text() string {
 		eff := ""
 		if t.EffFile > 0 {
 			eff = fmt.Sprintf("    echo %s > \"$VPROJ/%s\"\n", t.EffVal, p.Files[t.EffFile-1].Path)
+			if t.EffFrom > 0 {
+				// shell builtins only (no fork): read the first line of the source, write it to the target
+				eff = fmt.Sprintf("    read -r VCOPY < \"$VPROJ/%s\" && echo \"$VCOPY\" > \"$VPROJ/%s\"\n", p.Files[t.EffFrom-1].Path, p.Files[t.EffFile-1].Path)
+			}
 		}
 		fmt.Fprintf(&sb, "task %s(%s) {\n    echo %s:1 >> \"$VLOG\"\n    test ! -e \"$VCTL/fail_%s\"\n%s    echo %s:3 >> \"$VLOG\"\n}\n\n", t.Name, strings.Join(deps, ", "), t.Name, t.Name, eff, t.Name)
 	}
@@ -124,8 +131,11 @@ func histCatalogue() []hprog {
 		{Name: "P14-generates-glob-match", Tasks: []htask{{Name: "ta", Lits: []string{"seed.txt"}, EffFile: 3, EffVal: "gen"}, {Name: "tb", Deps: []string{"ta"}, Globs: []string{"*.src"}}},
 			Files: []hfile{lit("seed.txt"), globf("x.src", "v0"), globf("g.src", absent, "gen")}},
 		// two tasks with exactly the same file list, one before and one after a task that rewrites the file
-		{Name: "P16-same-list-around-a-rewrite", Tasks: []htask{{Name: "ta", Lits: []string{"g.txt"}}, {Name: "tm", Deps: []string{"ta"}, EffFile: 1, EffVal: "gen"}, {Name: "tb", Deps: []string{"tm"}, Lits: []string{"g.txt"}}},
+		{Name: "P16-same-list-around-a-rewrite", ReqMax: 1, Tasks: []htask{{Name: "ta", Lits: []string{"g.txt"}}, {Name: "tm", Deps: []string{"ta"}, EffFile: 1, EffVal: "gen"}, {Name: "tb", Deps: []string{"tm"}, Lits: []string{"g.txt"}}},
 			Files: []hfile{globf("g.txt", "v0", "gen")}},
+		// ... where the rewrite depends on another input (a generated file derived from a source file)
+		{Name: "P17-derived-file-between-equal-lists", ReqMax: 1, Tasks: []htask{{Name: "ta", Lits: []string{"gen.txt"}}, {Name: "tm", Deps: []string{"ta"}, Lits: []string{"src.txt"}, EffFile: 2, EffFrom: 1}, {Name: "tb", Deps: []string{"tm"}, Lits: []string{"gen.txt"}}},
+			Files: []hfile{lit("src.txt"), lit("gen.txt")}},
 		{Name: "P15-independent-generator", Tasks: []htask{{Name: "ta", EffFile: 2, EffVal: "gen"}, {Name: "tb", Globs: []string{"*.src"}}},
 			Files: []hfile{globf("x.src", "v0", "v1"), globf("g.src", absent, "gen")}},
 		{Name: "P8-three-tasks", Tasks: []htask{{Name: "ta", Lits: []string{"a.txt"}}, {Name: "tb", Lits: []string{"b.txt"}}, {Name: "tc", Deps: []string{"ta", "tb"}}}, Files: []hfile{lit("a.txt"), lit("b.txt")}},
@@ -295,6 +305,9 @@ func histOps(p hprog, d hdisk, withForce bool) []hop {
 	rec = func(cur []string) {
 		if len(cur) > 0 {
 			reqs = append(reqs, append([]string{}, cur...))
+		}
+		if p.ReqMax > 0 && len(cur) >= p.ReqMax {
+			return
 		}
 		for _, n := range names {
 			dup := false
@@ -545,6 +558,9 @@ func evalRun(p hprog, d hdisk, m hmodel, op hop, ex hexec) (hmodel, []hviol) {
 		pre = inputsNow(p, t, cur)
 		if t.EffFile > 0 {
 			cur.Files[t.EffFile-1] = t.EffVal
+			if t.EffFrom > 0 {
+				cur.Files[t.EffFile-1] = cur.Files[t.EffFrom-1]
+			}
 		}
 		post = inputsNow(p, t, cur)
 		if failing[t.Name] {
